@@ -226,7 +226,15 @@ pub fn gen_select(seed: u64, index: u64) -> KPlan {
                     _ => None,
                 },
             },
-            8 => KEv::Send { link, n: r.range(1, 300) as u32 },
+            8 => {
+                if r.chance(0.15) {
+                    // a backlog larger than the window: capacity score 0
+                    events.push(KEv::SetWindow { link, window: *r.pick(&[1000, 1000, 1500, 3000]) });
+                    KEv::Send { link, n: r.range(1000, 3300) as u32 }
+                } else {
+                    KEv::Send { link, n: r.range(1, 300) as u32 }
+                }
+            }
             9 | 10 => KEv::SrtlaAck { link, pick: r.below(1000) as u32 },
             11 => KEv::Inbound { link },
             12 => KEv::CumAck { permille: r.range(0, 1100) as u32 },
